@@ -43,6 +43,7 @@ type upstreamResp struct {
 	status int
 	header [][2]string
 	chunks [][]byte
+	abort  bool // the upstream dies after the last chunk: the body is never terminated
 }
 
 type chain struct {
@@ -53,6 +54,7 @@ type chain struct {
 	up      *httptest.Server
 	px      *httptest.Server
 	table   atomic.Value // route.Table
+	matcher atomic.Value // string: the configured proxy.matcher
 	noroute int
 }
 
@@ -75,13 +77,20 @@ func newChain() *chain {
 				f.Flush()
 			}
 		}
+		if resp.abort {
+			panic(http.ErrAbortHandler) // connection closed without the end of the body
+		}
 	}))
 	cache := route.NewGlobCache(100)
 	c.px = httptest.NewServer(&proxy.HTTPProxy{
 		Config:    config.Proxy{NoRouteStatus: 0},
 		Transport: &http.Transport{DisableCompression: true, MaxIdleConnsPerHost: 4},
 		Lookup: func(r *http.Request) *route.Target {
-			return c.table.Load().(route.Table).Lookup(r, "", route.Picker["rr"], route.Matcher["prefix"], cache, false)
+			m, _ := c.matcher.Load().(string)
+			if m == "" {
+				m = "prefix"
+			}
+			return c.table.Load().(route.Table).Lookup(r, "", route.Picker["rr"], route.Matcher[m], cache, false)
 		},
 	})
 	return c
@@ -97,7 +106,8 @@ type routeSpec struct {
 	prepend string
 	hostOpt string // "", "dst", or a name
 	query   string // query of the route's target URL
-	path    string // route path (== strip when stripping)
+	path    string // route path (== strip when stripping, unless another matcher is used)
+	matcher string // proxy.matcher: "" = prefix
 }
 
 var segs = []string{"a", "b", "abc", "a%2Fb", "%20", "%41", "%C3%A9", "x%2fy", "%25", "a+b", "a;p=1", "~u", "a=b", "a@b", "a:b", "..", ".", "", "%7Euser", "a%3Fb", "a%23b", "%E2%82%AC"}
@@ -114,6 +124,19 @@ func genRoute(t *rapid.T) routeSpec {
 		r.strip = rapid.SampledFrom([]string{"/api", "/s"}).Draw(t, "strip")
 		r.prepend = rapid.SampledFrom([]string{"/pre", "/p_2"}).Draw(t, "prepend")
 		r.path = r.strip
+	}
+	// the other matchers: the route path is then not literally a prefix of the request path,
+	// strip and prepend work on the request path all the same
+	if r.strip != "" {
+		switch rapid.IntRange(0, 5).Draw(t, "matcher") {
+		case 0:
+			r.matcher, r.path = "iprefix", strings.ToUpper(r.strip)
+		case 1:
+			r.matcher = "glob"
+			r.path = rapid.SampledFrom([]string{"/*", "/?" + r.strip[2:] + "*", r.strip + "*", "/**"}).Draw(t, "globpath")
+		case 2:
+			r.path = "/" // prefix matcher, route path shorter than the strip path
+		}
 	}
 	r.hostOpt = rapid.SampledFrom([]string{"", "", "dst", "backend.internal", "other.example:8080"}).Draw(t, "hostopt")
 	if rapid.IntRange(0, 2).Draw(t, "tq") == 0 {
@@ -193,7 +216,9 @@ func genClientReq(t *rapid.T, rt routeSpec) clientReq {
 		host:   rapid.SampledFrom([]string{"example.com", "Example.COM", "example.com:8080", "api.example.org"}).Draw(t, "host"),
 	}
 	p := ""
-	if rt.path != "/" {
+	if rt.strip != "" {
+		p = rt.strip
+	} else if rt.path != "/" {
 		p = rt.path
 	}
 	for i, n := 0, rapid.IntRange(0, 4).Draw(t, "nseg"); i < n; i++ {
@@ -287,6 +312,9 @@ func genUpstreamResp(t *rapid.T, method string) upstreamResp {
 			}
 			r.chunks = append(r.chunks, body[i*per:end])
 		}
+		if len(body) > 0 && rapid.IntRange(0, 7).Draw(t, "upstream-dies-mid-body") == 0 {
+			r.abort = true
+		}
 	}
 	return r
 }
@@ -357,6 +385,7 @@ func TestC07PassThrough(t *testing.T) {
 			t.Fatalf("%v\n%s", err, cfg)
 		}
 		c.table.Store(tbl)
+		c.matcher.Store(rt.matcher)
 		q := genClientReq(t, rt)
 		resp := genUpstreamResp(t, q.method)
 		c.mu.Lock()
@@ -365,6 +394,19 @@ func TestC07PassThrough(t *testing.T) {
 		status, hdr, body, err := exchange(c.px.Listener.Addr().String(), q.wire(), q.method)
 		hx.Eval()
 		ctx := fmt.Sprintf("%s\nrequest: %s %s?%s Host=%s headers=%q body=%d bytes chunked=%v%v\nupstream answer: %d headers=%q", cfg, q.method, q.rawPath, q.query, q.host, q.headers, len(q.body), q.chunked, q.chunkCut, resp.status, resp.header)
+		if resp.abort {
+			// a fault on the upstream side: it sent the status, the headers and a part of the body and
+			// died.  The client must not be handed that part as if it were the whole body.
+			sent := bytes.Join(resp.chunks, nil)
+			if err == nil {
+				t.Fatalf("the upstream died after %d body bytes without terminating the body, but the client was given a complete response (status %d, %d body bytes)\n%s", len(sent), status, len(body), ctx)
+			}
+			if status != 0 && !bytes.HasPrefix(sent, body) {
+				t.Fatalf("the bytes the client received before the abort are not a prefix of what the upstream sent\n%s", ctx)
+			}
+			hx.Class("upstream-dies-mid-body")
+			return
+		}
 		if err != nil {
 			t.Fatalf("exchange failed: %v\n%s", err, ctx)
 		}
@@ -455,6 +497,9 @@ func TestC07PassThrough(t *testing.T) {
 		}
 		if q.chunked {
 			hx.Class("chunked-request-body")
+		}
+		if rt.matcher != "" {
+			hx.Class("matcher:" + rt.matcher + "-with-strip")
 		}
 		if len(q.body) > 65536 || len(wantBody) > 65536 {
 			hx.Class("body>64KiB")
